@@ -540,8 +540,8 @@ Definition has_object_named (n : name) (S : schema) : bool :=
    *_refuted theorems) *)
 Definition convert_lossy (S : schema) : list name :=
   (if existsb (fun t => one_of (td_dirs t)) (s_types S) then [#"one-of"] else []).
-(* what the generator (or the merge before it) gets wrong.  (reason-null and name-collision were here
-   until the generator was repaired) *)
+(* what the generator (or the merge before it) gets wrong.  (reason-null, name-collision and root-invented were
+   here until the generator / the merge were repaired) *)
 Definition generate_lossy (S : schema) : list name :=
   (if existsb (fun ds => str_special (reason_of ds)) (all_deprecable_dirs S)
       || existsb (fun t => str_special (url_of (td_dirs t))) (s_types S) then [#"string-escapes"] else [])
@@ -551,10 +551,9 @@ Definition generate_lossy (S : schema) : list name :=
       then [#"query-name-collision"] else [])   (* asttransform.findQueryNode takes the first node of any kind: not modelled *)
   ++ (if existsb (fun t => mem_bytes (td_name t) base_scalar_names) (s_types S)
          || existsb (fun d => mem_bytes (dd_name d) (map dd_name base_public_directives)) (s_directives S)
-      then [#"builtin-redeclared"] else [])
-  ++ (if (match s_mutation S with None => has_object_named #"Mutation" S | Some _ => false end)
-         || (match s_subscription S with None => has_object_named #"Subscription" S | Some _ => false end)
-      then [#"root-invented"] else []).
+      then [#"builtin-redeclared"] else []).
+(* (root-invented -- an object type named Mutation / Subscription that the schema definition does not name as a
+   root -- was here until asttransform was repaired: fix root-operation-invented) *)
 Definition lossy_clauses (S : schema) : list name := convert_lossy S ++ generate_lossy S.
 
 (* ------------------------------------------------------------------ non-trivial cases of the check *)
